@@ -199,7 +199,26 @@ func checkDispatch(c *Check, p *Program, rel, decoder, codeMethod, codeType, ifa
 			continue
 		}
 		_, has := byConst[cn.Val().ExactString()]
-		c.Decide(has, rule, rel+"."+n+" has a case", p.Pos(cn.Pos()), "dispatched", "declared code has no case in "+decoder+": frames of this kind decode as the unknown/unsupported type")
+		// a code that is only named (no type encodes under it) is decoded by the default arm, which keeps
+		// the received code: nothing to give back.  A code some type encodes under needs its case.
+		encodedBy := ""
+		if !has {
+			for _, nt := range p.allNamedTypes() {
+				if nt.Obj().Pkg() != pk {
+					continue
+				}
+				if m := methodOf(p, nt, codeMethod); m != nil {
+					if v, _ := constResult(m); v != nil && constant.Compare(v, token.EQL, cn.Val()) {
+						encodedBy = nt.Obj().Name()
+					}
+				}
+			}
+		}
+		fact := "dispatched"
+		if !has {
+			fact = "named only: no type encodes under this code, the default arm preserves it"
+		}
+		c.Decide(has || encodedBy == "", rule, rel+"."+n+" has a case", p.Pos(cn.Pos()), fact, "declared code has no case in "+decoder+" although "+encodedBy+" encodes under it: its frames decode as the unknown/unsupported type")
 	}
 	// every type implementing the interface with a constant code is constructed by a case
 	if io := pk.Scope().Lookup(ifaceName); io != nil {
